@@ -576,6 +576,26 @@ func runC10R(c *Ctx) {
 	}
 	type place struct{ x, y, z float64 }
 	places := []place{{100, 100, 100}, {0, 0, 0}, {100, 100, 50}, {100, 40, 60}}
+	// a field with TWO Float1 attributes on a FRESH canvas (no block of either attribute allocated yet), 8 and 4 blocks, each
+	// variant several times: block allocation of the later attribute runs while workers are busy with the first one
+	for rep := 0; rep < 3*c.N; rep++ {
+		for _, p := range places[:3] {
+			sh := c10Shape{kind: "l1", cx: p.x, cy: p.y, cz: p.z, r: 3, ax: 1, ay: 1, az: 2, extra: true}
+			for _, par2 := range []bool{false, true} {
+				cv := marching.NewMarchingCanvas(1)
+				f := sh.field(&c10Sampler{}, 1)
+				res := Guard(func() string {
+					if par2 {
+						cv.AddFieldParallel2(f)
+					} else {
+						cv.AddFieldParallel(f)
+					}
+					return "ok"
+				})
+				c.Note("race-addfield-two-attributes-fresh-canvas-" + res)
+			}
+		}
+	}
 	for k := 0; k < c.N; k++ {
 		for pi, p := range places {
 			sh := c10Shape{kind: "l1", cx: p.x, cy: p.y, cz: p.z, r: 3, ax: 1, ay: 2, az: 1}
